@@ -92,19 +92,22 @@ Print Assumptions C04_sufficient_refuted.
     PROVED for the fragment [teq_program_okb] (Model/ProgramTeq.v): every field records its type
     name, is not [#[codec(compact)]], its type contains no Box / VecDeque, mentions only declared
     non-skipped parameters, and mentions them only directly or under Vec / array / tuple /
-    Compact; everything else in a field type (applications of other definitions, Option / Result /
-    BTreeMap / ..., bit sequences) is closed.  Proof (Proofs/TeqComplete.v): an abstract-term
+    Compact / Option / Result / Range / Cow; everything else in a field type (applications of
+    other definitions, BTreeMap / BTreeSet - whose registry entries hide a [Vec<..>] field -,
+    bit sequences) is closed.  Proof (Proofs/TeqComplete.v): an abstract-term
     simulation.  Invariant: every compared pair of ids [(x, y)] is the pair of instances
     [cs args1 c], [cs args2 c] of ONE open source term [c]; both GenericsLists are the frame of the
     instantiation's own parameters - the same positions and names bound to the respective
-    arguments ([Rp]) - below any number of empty frames ([GL]); the visited sets are the instances
+    arguments ([Rp]) - below frames pushed by builtin / prelude entries, all ALIGNED ([AL]: same
+    starts and names, entries = instances of the same open terms, so both lookups of a compared
+    pair give the same index); the visited sets are the instances
     of one list of open terms above the two instantiations ([Inv]); "seen on the left iff seen
     on the right" holds because the instances under one coincidence-free argument list determine
     the instances under the other ([inj_n]).
 
     MISSING for the full statement - and FALSE as it stands, see [C04_instantiations_stay_cf_refuted]:
-    parameters under applications of generic definitions / prelude generics (nested parameter
-    frames), Box / VecDeque, compact-attribute fields, fields without recorded type names. *)
+    parameters under applications of generic definitions and under BTreeMap / BTreeSet, Box /
+    VecDeque, compact-attribute fields, fields without recorded type names. *)
 From V Require Import Model.Program Model.ProgramSkel Model.ProgramTeq Model.ProgramExamples Model.Settings Model.Generate Model.Shape
   Proofs.KeepFirst Proofs.TeqComplete Proofs.ProgramExamples.
 
@@ -161,13 +164,14 @@ Proof.
 Qed.
 Print Assumptions C04_program_no_duplicate_path_partial.
 
-(** non-vacuity: [a::Pt<T> { x: T, ys: Vec<T>, p: (T, u8), o: Option<u32> }] at [u16] and [bool] *)
+(** non-vacuity: [a::Pt<T> { x: T, ys: Vec<T>, p: (T, u8), o: Option<u32>, m: Option<T>, e: Result<T, u8>,
+    g: Range<T> }] at [u16] and [bool] *)
 Theorem C04_instantiations_stay_example :
   RegistryOf ex7_defs (label_at ex7_labels) ex7_reg /\
   nth_error ex7_defs 0 = Some ex7_sd /\ teq_program_okb ex7_sd = true /\
   instantiation_cf ex7_defs ex7_sd [SPrimT PU16] = true /\ instantiation_cf ex7_defs ex7_sd [SPrimT PBool] = true /\
-  label_at ex7_labels 0 = Some (SApp 0 [SPrimT PU16]) /\ label_at ex7_labels 7 = Some (SApp 0 [SPrimT PBool]) /\
-  types_equal_res ex7_reg 0 7 = Ok true.
+  label_at ex7_labels 0 = Some (SApp 0 [SPrimT PU16]) /\ label_at ex7_labels 10 = Some (SApp 0 [SPrimT PBool]) /\
+  types_equal_res ex7_reg 0 10 = Ok true.
 Proof. exact (conj ex7_RegistryOf ex7_hypotheses). Qed.
 Print Assumptions C04_instantiations_stay_example.
 
